@@ -116,7 +116,9 @@ def main(run):
     r = tie.rng_for(run, "c15")
     quick = run.tier == "quick"
 
-    lines = ["rpc"] + list(vlib.read_corpus("C15"))
+    corpus = list(vlib.read_corpus("C15"))
+    corpus_rpe = [l for l in corpus if l.startswith("rpe")]      # exchanges are handled below
+    lines = ["rpc"] + [l for l in corpus if not l.startswith("rpe")]
     kinds = ["corpus"] * len(lines)
     replay_only = False
     if getattr(run, "replay", None):
@@ -141,6 +143,9 @@ def main(run):
     for w in ("1", "2", "3", "63", "64", "65"):
         add(G.rpu_exhaustive(w, ["v0", "v1", "v2", "v3", "v4", "v40", "v41", "v42", "r"], 3 if quick else 4),
             "unit-exhaustive")
+    add(G.rpu_width_probes(("32", "64") if quick else ("1", "2", "32", "33", "63", "64", "100", "4294967295")), "unit-width")
+    add(G.rpd_width_probes(("32",) if quick else ("2", "32", "64")), "request-width")
+    add(G.rpx_width_probes(), "dualrole-width")
     add(G.rpu_sweep(("32", "64") if quick else ("1", "2", "31", "32", "33", "62", "63", "64", "65", "66", "100")),
         "unit-sweep")
     for w in (("2", "32") if quick else ("1", "2", "3", "32", "64")):
@@ -237,7 +242,7 @@ def main(run):
 
     # whole exchanges through the client API (B.1.2 recovery included), with replays and
     # tampered copies of everything the client sent
-    elines = list(G.rpe_cases(quick)) if not replay_only else replay_rpe
+    elines = (corpus_rpe + list(G.rpe_cases(quick))) if not replay_only else replay_rpe
     eo, ecr = run_c(drv, elines)
     conv = [G.parse_rpe(ln, o) for ln, o in zip(elines, eo)]
     mlines = [c[0] for c in conv if c]
